@@ -309,6 +309,7 @@ def install(ctx, repo, probes):
             else:
                 ctx.cls("first_after/between")
     probes.wrap(TR, "get_first_after", post_first_after)
+    ctx.target("valid/deep-member")
     ctx.target("same-object-other-mode", "binary-fraction-interval",
                "probe/far-along", "first_after/far-along",
                "fractional-second-anchor", "probe/formatting-attributes",
@@ -355,6 +356,23 @@ def run_case(ctx, repo, case):
         try:
             rec = recgen.build(repo, desc)
         except ValueError:
+            return
+        if case.get("op") == "deep-member":
+            # a member far along an unbounded series of seconds is a member
+            # like any other (the monitor on get_is_valid decides)
+            depth = case["depth"]
+            a = rec._start_point
+            probe = repo.tp(gen.tp_from_instant(
+                __import__("random").Random(depth), mode,
+                int(R.tp_instant(mode, a)) + depth, rep="cal", offset=(0, 0),
+                allow_2400=False))
+            ctx.ev("valid.deep-member")
+            got = rec.get_is_valid(probe)
+            if got is not True:
+                ctx.violation("valid.deep-member", "member number %d of %r "
+                              "is reported as no member" % (depth + 1, desc))
+            else:
+                ctx.cls("valid/deep-member")
             return
         rng = __import__("random").Random(case["probe_seed"])
         if any(F(v).denominator != 1 for v in
@@ -577,6 +595,17 @@ def workload(ctx, repo):
                                  "start": start, "dur": dkw}}
                 ctx.case = case
                 run_case(ctx, repo, case)
+    # one member far along a series of seconds (quick: number 100 004,
+    # thorough: number 500 010)
+    if ctx.worker == 0:
+        a = gen.tp_from_instant(rng, "gregorian", 730000 * 86400 + 5,
+                                rep="cal", offset=(0, 0), allow_2400=False)
+        case = {"op": "deep-member", "probe_seed": 0,
+                "depth": 100003 if ctx.tier == "quick" else 500009,
+                "desc": {"mode": "gregorian", "fmt": 3, "reps": None,
+                         "start": a, "dur": {"seconds": 1}}}
+        ctx.case = case
+        run_case(ctx, repo, case)
     # intervals about a year long in exact units, from anchors at the ends
     # of leap and common years, in every representation: single steps that
     # land exactly on day 366 / 1 January
